@@ -27,7 +27,8 @@ VARIABLES
   ackedN,    \* number of events removed by ACK transactions
   rd,        \* reader: [tx, snap, idx, inEv, left]
   cb,        \* callback totals [f, a]
-  qtx,       \* queue transaction inside its commit: [kind, n]
+  qtx,       \* queue transaction inside its commit: [kind, n]; mf / ma: state of a failed flush / ACK
+             \* attempt whose header may have reached the disk (C08 allows a reopen to show it)
   cfg,       \* [ps, maxp]
   l, adev, devs, seen
 
@@ -66,7 +67,7 @@ Rd0 == [tx |-> FALSE, snap |-> 0, idx |-> 0, inEv |-> FALSE, left |-> 0]
 
 QOpen(e) ==
   /\ evs' = <<>> /\ ends' = <<>> /\ base' = 0 /\ cur' = 0 /\ flushedN' = 0 /\ ackedN' = 0
-  /\ rd' = Rd0 /\ cb' = [f |-> 0, a |-> 0] /\ qtx' = [kind |-> "", n |-> 0]
+  /\ rd' = Rd0 /\ cb' = [f |-> 0, a |-> 0] /\ qtx' = [kind |-> "", n |-> 0, mf |-> 0, ma |-> 0]
   /\ cfg' = [ps |-> e.ps, maxp |-> e.maxp]
 
 Keep(vs) == UNCHANGED vs
@@ -92,11 +93,14 @@ QTxBegin(e) ==
 QSwitched(e) ==
   /\ flushedN' = IF e.kind = "flush" THEN Len(evs) ELSE flushedN
   /\ ackedN' = IF e.kind = "ack" THEN ackedN + qtx.n ELSE ackedN
-  /\ qtx' = IF e.kind = "ack" THEN [kind |-> "", n |-> 0] ELSE [qtx EXCEPT !.kind = ""]
+  /\ qtx' = IF e.kind = "ack" THEN [kind |-> "", n |-> 0, mf |-> 0, ma |-> 0]
+            ELSE [qtx EXCEPT !.kind = "", !.mf = 0, !.ma = 0]
   /\ UNCHANGED <<evs, ends, base, cur, rd, cb, cfg>>
 
 QTxFailed(e) ==
-  /\ qtx' = [qtx EXCEPT !.kind = ""]
+  /\ qtx' = [qtx EXCEPT !.kind = "",
+                        !.mf = IF qtx.kind = "flush" THEN Len(evs) ELSE @,
+                        !.ma = IF qtx.kind = "ack" THEN qtx.n ELSE @]
   /\ UNCHANGED <<evs, ends, base, cur, flushedN, ackedN, rd, cb, cfg>>
 
 Flushed(e) ==
@@ -198,7 +202,9 @@ ADev(e) ==
          F("C06", "CrashDrain", e.ok /\
               \/ DrainOK(e, ackedN, flushedN)
               \/ qtx.kind = "flush" /\ DrainOK(e, ackedN, Len(evs))
-              \/ qtx.kind = "ack" /\ DrainOK(e, ackedN + qtx.n, flushedN))
+              \/ qtx.kind = "ack" /\ DrainOK(e, ackedN + qtx.n, flushedN)
+              \/ qtx.mf > 0 /\ DrainOK(e, ackedN, qtx.mf)
+              \/ qtx.ma > 0 /\ DrainOK(e, ackedN + qtx.ma, flushedN))
     [] e.ev \in {"CrashFailed", "QOpenFailed"} -> {<<"C06", e.ev>>}
     [] OTHER -> {}
 
@@ -225,7 +231,7 @@ Act(e) ==
 
 TInit ==
   /\ evs = <<>> /\ ends = <<>> /\ base = 0 /\ cur = 0 /\ flushedN = 0 /\ ackedN = 0
-  /\ rd = Rd0 /\ cb = [f |-> 0, a |-> 0] /\ qtx = [kind |-> "", n |-> 0]
+  /\ rd = Rd0 /\ cb = [f |-> 0, a |-> 0] /\ qtx = [kind |-> "", n |-> 0, mf |-> 0, ma |-> 0]
   /\ cfg = [ps |-> 996, maxp |-> 0]
   /\ l = 1 /\ adev = {} /\ devs = {} /\ seen = {}
   /\ TLCSet(1, {})
